@@ -519,7 +519,7 @@ pub fn run_c16(_tier: &str, sink: &Sink) -> DOut {
         }
     });
     // numeric extension (reference statement only): multi-digit and limit components
-    let nums = [0u64, 1, 2, 9, 10, 11, 100, MAX_SAFE];
+    let nums = [0u64, 1, 2, 10, 256, 65536, 4294967296, MAX_SAFE];
     let mut ext: Vec<Version> = vec![];
     for a in nums {
         for b in nums {
